@@ -188,6 +188,18 @@ func c01(r *ev.Run) {
 		return obs, ""
 	})
 	r.Scenario("chosen-hmac-pipeline", func(raw []byte) (string, string) { return l2(unjson[c01L1](raw)) })
+	{
+		k := []byte("12345678901234567890")
+		sp := ref.B32Encode(k)
+		var cs []c01Case
+		for _, ctr := range []uint64{0, 1, 1 << 32, ^uint64(0)} {
+			for a := 0; a < 3; a++ {
+				cs = append(cs, c01Case{sp, ctr, 6 + 2*a, a, false})
+			}
+			cs = append(cs, c01Case{sp, ctr, 0, 0, true})
+		}
+		afterWarmups(r, "e2e-after-other-operations", cs, func(c c01Case) (string, string) { return hotpE2E(c, k) })
+	}
 	if ReplayOnly {
 		return
 	}
